@@ -3,6 +3,11 @@
 # kind: rapid (default) | exhaustive | plain
 # quick/thorough: checks = total rapid cases over all shards; shards = processes; timeout = seconds per shard
 PARTS = {
+    "C03": [
+        {"test": "TestVfC03Signing",
+         "quick": {"checks": 3000, "shards": 4, "timeout": 600},
+         "thorough": {"checks": 300000, "shards": 16, "timeout": 2400}},
+    ],
     "C04": [
         {"test": "TestVfC04Verdicts",
          "quick": {"checks": 3000, "shards": 4, "timeout": 600},
@@ -94,6 +99,16 @@ PARTS = {
 LEVEL = {}  # default: exploration
 
 RULES = {
+    "C03": "direct-driven floodsub node under each signature policy (StrictSign, StrictNoSign, LaxSign, LaxNoSign) x author mode (default, "
+           "custom author with key in the peerstore, anonymous); 1-12 messages per case: honestly signed messages of three remote authors "
+           "(two ed25519 with extractable key, one ECDSA with attached key) forwarded by the author or another peer and hit by 0-3 of 20 "
+           "tamperings (change data / topic / from / seqno, drop / empty / swap / corrupt signature, swap / attach / garbage key, re-sign with "
+           "a foreign key incl. one the node has seen honest messages from, from = local node, unknown fields, drop from / seqno, truncate "
+           "peer ID, fully anonymous), and local publishes (default key, per-publish ed25519 / ECDSA key). Oracle: independent "
+           "implementation of the signature rule + the policy's presence rules + self-origin rule + seen IDs; accept => delivered once and "
+           "forwarded byte-identical, reject => never delivered or queued; verifyMessageSignature is also compared differentially with the "
+           "independent verifier; own messages must be acceptable to a correct receiver. Non-trivial: tampering changed the verdict, or an "
+           "accept under a lax policy. Distinct = case JSON.",
     "C04": "direct-driven gossipsub node with scoring (invalid-delivery counters observable), 1-5 scripted validators (default / topic A / "
            "topic B, inline / asynchronous, optional timeout), 1-3 validation workers, optional tiny throttles (global, per validator, "
            "queue); 1-4 messages per case, local or remote, on topic A or B, with a per-validator verdict in {Accept, Reject, Ignore, 7, "
@@ -225,6 +240,13 @@ ASSUMPTIONS = {
 HOOK_COMMITS = ["407c3ed", "8f1d1a5"]
 
 META = {
+    "C03": {
+        "text": "Property-based testing with mutation-style input generation (tamper and recombine honest messages) against an independent "
+                "re-implementation of the acceptance rule, checked in both directions and differentially at unit level; finds skipped "
+                "key/author binding, fields left out of the signed bytes, policy/presence mistakes, missing self-origin check.",
+        "note": "Trusts libp2p crypto (sign/verify, key marshalling) and the generated protobuf marshaller, which oracle and code share.",
+        "technique": "property-based testing (rapid) with independent reference oracle and differential check",
+    },
     "C04": {
         "text": "Property-based testing over verdict vectors x validator placements x completion orders x duplicate arrival offsets with a "
                 "decision-table oracle observed through counting wrappers and score counters; finds precedence mistakes, unknown verdicts "
